@@ -82,6 +82,9 @@ inductive BSpec (K : Type) where
   | cai (logFreq : List (Seq × K)) (logBest : List (Char × K)) (codonAA : List (Seq × Char)) (loc : Loc)
   | kmers (k : Nat) (rc : Bool) (loc ref : Loc) (data : Option KmerData)
   | hairpins (stem window : Nat) (loc : Loc)
+  /-- HarmonizeRCA: relative codon adaptiveness in the target / original organism, the original codons and the
+      smallest possible discrepancy per codon (both fixed by `initialized_on_problem`) -/
+  | rca (rcaT rcaO : List (Seq × K)) (orig : List Seq) (smallest : List K) (loc : Loc)
 
 namespace BSpec
 variable {K : Type} [NumK K]
@@ -111,6 +114,12 @@ def intervalsOf (indices : List Int) (spread : Int) : List Loc :=
     match g.head?, g.getLast? with
     | some a, some b => some ⟨a, b + 1, 1⟩
     | _, _ => none)
+
+/-- (log-frequency of the codon, log-frequency of the best synonym of its amino acid); `none` = KeyError -/
+def caiTerm (logFreq : List (Seq × K)) (logBest : List (Char × K)) (codonAA : List (Seq × Char)) (c : Seq) : Option (K × K) :=
+  match lookup c logFreq, (lookup c codonAA).bind (fun aa => lookup aa logBest) with
+  | some f, some o => some (f, o)
+  | _, _ => none
 
 /-- `codons_indices_to_locations` -/
 def codonIndicesToLocs (loc : Loc) (indices : List Nat) : List Loc :=
@@ -357,10 +366,7 @@ def evaluate (b : BSpec K) (s : Seq) : Option (BEval K) :=
     | some sub =>
       if sub.length % 3 != 0 then none else
       let codons := chunk3 sub
-      let terms : List (Option (K × K)) := codons.map (fun c =>
-        match lookup c logFreq, (lookup c codonAA).bind (fun aa => lookup aa logBest) with
-        | some f, some o => some (f, o)
-        | _, _ => none)
+      let terms : List (Option (K × K)) := codons.map (caiTerm logFreq logBest codonAA)
       if terms.any (·.isNone) then none else
       let ts := terms.filterMap id
       match ts with
@@ -373,6 +379,31 @@ def evaluate (b : BSpec K) (s : Seq) : Option (BEval K) :=
         some ⟨NumK.neg (NumK.sum nonopt), some (codonIndicesToLocs loc idx)⟩
   | kmers k rc loc ref data => evaluateKmers k rc loc ref data s
   | hairpins stem window loc => evaluateHairpins stem window loc s
+  | rca rcaT rcaO orig smallest loc =>
+    match loc.extract s with
+    | none => none
+    | some sub =>
+      if sub.length % 3 != 0 then none else
+      let codons := chunk3 sub
+      match codons with
+      | [c] =>
+        -- a single codon is compared with the *first* original codon
+        match lookup c rcaT, orig.head?.bind (fun o => lookup o rcaO) with
+        | some a, some b =>
+          let score : K := NumK.neg (NumK.abs (NumK.sub a b))
+          some ⟨score, some (if Score.eq score (Score.zero : K) then [] else [loc])⟩
+        | _, _ => none
+      | _ =>
+        let ro : List (Option K) := orig.map (fun o => lookup o rcaO)
+        let rt : List (Option K) := codons.map (fun c => lookup c rcaT)
+        if ro.any (·.isNone) || rt.any (·.isNone) then none else
+        -- numpy arrays of different lengths do not broadcast (unless one has a single element: not modelled)
+        if orig.length != codons.length || smallest.length != codons.length then none else
+        let disc : List K := List.zipWith (fun a b => NumK.abs (NumK.sub a b)) (ro.filterMap id) (rt.filterMap id)
+        let nonopt : List K := List.zipWith (fun m d => NumK.sub m d) smallest disc
+        let idx := (List.range nonopt.length).filter (fun i =>
+          match nonopt[i]? with | some v => !Score.eq v (Score.zero : K) | none => false)
+        some ⟨NumK.neg (NumK.sum disc), some (codonIndicesToLocs loc idx)⟩
 
 /-- the codon-aligned sub-location of `CodonSpecification.localized` and the codon range -/
 def codonWindow (self overlap : Loc) : Loc × Nat × Nat :=
@@ -483,6 +514,11 @@ def localized (b : BSpec K) (location : Loc) (rh : Option Bool) : Localized K :=
     | none => .none
     | some ov => .new (cai lf lb ca (codonWindow loc ov).1)
   | kmers _ _ _ _ _ => .same      -- needs the problem's sequence: see `localizedKmers`
+  | rca rt ro orig smallest loc =>
+    -- `localized_on_window` of the base class only relocates: the per-codon data stay those of the whole region
+    match loc.overlap location with
+    | none => .none
+    | some ov => .new (rca rt ro orig smallest (codonWindow loc ov).1)
   | hairpins stem window loc =>
     match loc.overlap location with
     | none => .none
